@@ -154,7 +154,7 @@ pub fn configs(tier: Tier) -> Vec<InCfg> {
 
 pub fn run(tier: Tier) -> i32 {
     let mut ck = Check::new("C16", tier, Duration::from_secs(if tier == Tier::Quick { 50 } else { 2400 }));
-    let ecfg = ExploreCfg { max_dev: 0, max_execs: if tier == Tier::Quick { 600_000 } else { 30_000_000 }, ..Default::default() };
+    let ecfg = ExploreCfg { max_dev: if tier == Tier::Quick { 0 } else { 1 }, max_execs: if tier == Tier::Quick { 600_000 } else { 30_000_000 }, ..Default::default() };
     for (i, c) in configs(tier).iter().enumerate() {
         ck.explore::<In>("inbound", i, c, &ecfg);
     }
